@@ -794,6 +794,44 @@ def _imports(ctx, index):
         elif isinstance(p, ast.Call) and p.func is n:
             results = p
             q = par.get(p)
+            if isinstance(q, (ast.Assign, ast.AnnAssign)) and isinstance(q.targets[0] if isinstance(q, ast.Assign) else q.target, ast.Name):
+                # one symbol's result held in a local: every later use must sit under a test that the local is not None / truthy
+                lname = (q.targets[0] if isinstance(q, ast.Assign) else q.target).id
+                uses = [x for x in iter_own(g.node) if isinstance(x, ast.Name) and x.id == lname and isinstance(x.ctx, ast.Load)]
+
+                def under_test(x):
+                    child, up_ = x, par.get(x)
+                    while up_ is not None and up_ is not g.node:
+                        if isinstance(up_, (ast.If, ast.IfExp)) and child is not up_.test and (child in up_.body if isinstance(up_, ast.If) else child is up_.body):
+                            t_ = up_.test
+                            if (isinstance(t_, ast.Name) and t_.id == lname) or (
+                                isinstance(t_, ast.Compare) and isinstance(t_.left, ast.Name) and t_.left.id == lname and len(t_.ops) == 1 and isinstance(t_.ops[0], ast.IsNot)
+                            ):
+                                return True
+                        child, up_ = up_, par.get(up_)
+                    return False
+
+                def is_test(x):
+                    up_ = par.get(x)
+                    if isinstance(up_, ast.Compare):
+                        up_ = par.get(up_)
+                    return isinstance(up_, (ast.If, ast.IfExp)) and (up_.test is x or up_.test is par.get(x))
+
+                n_uses += 1
+                ok_l = bool(uses) and all(is_test(x) or under_test(x) for x in uses)
+                ctx.ob(
+                    "C19.imports",
+                    g,
+                    "results of infer_imports pass a None filter before they are iterated",
+                    ok_l or not noneable,
+                    ""
+                    if ok_l or not noneable
+                    else "infer_imports returns None for a symbol that needs no import, and `{}` (its result) is used without a test "
+                    "that it is not None: `gen --emit-and-infer-imports` raises TypeError as soon as one generated symbol is "
+                    "import-free".format(lname),
+                    line=n.lineno,
+                )
+                continue
             if isinstance(q, (ast.ListComp, ast.GeneratorExp, ast.SetComp)) and q.elt is p:
                 if any(gen_.ifs for gen_ in q.generators):
                     results = None  # filtered inside the comprehension: judged below as filtered
